@@ -58,6 +58,26 @@ let () =
       let (w, p) = split_token (ns ws) in
       Some (show_ns w ^ " | " ^ show_ns p))
 
+(* ---- resolution model over the REAL file system (the theorems hold for any predicate):
+   RS <list> | <base or -> | <LOUIS_TABLEPATH or -> | <builtin dir> *)
+let path_of_string s = List.init (String.length s) (fun i -> n_of_int (Char.code s.[i]))
+let string_of_path p = String.concat "" (List.map (fun c -> String.make 1 (Char.chr (int_of_n c))) p)
+let real_exists p =
+  let s = string_of_path p in
+  (try (Unix.stat s).Unix.st_kind <> Unix.S_DIR with _ -> false)
+let () =
+  reg "RS" (fun ws ->
+      let line = String.concat " " ws in
+      let parts = List.map String.trim (String.split_on_char '|' line) in
+      match parts with
+      | [ lst; base; env; builtin ] ->
+        let opt s = if s = "-" then None else Some (path_of_string s) in
+        let sp = search_path (opt env) None (path_of_string builtin) in
+        (match resolve_list real_exists (path_of_string lst) (opt base) sp with
+         | None -> Some "P FAIL"
+         | Some ps -> Some ("P " ^ String.concat "|" (List.map string_of_path ps)))
+      | _ -> failwith "RS")
+
 (* ---- log model: LR S <l> ; R <k> ; E <lvl> <c...> ; ... *)
 let () =
   reg "LR" (fun ws ->
